@@ -1,0 +1,27 @@
+//go:build verif
+
+package linux
+
+import (
+	"net/url"
+	"os"
+	"path"
+)
+
+// With build tag "verif": copy the file that would be transferred by
+// scp to directory $VERIF_SCP_DIR, so that an external device
+// simulation can load it.
+func verifPutScp(src, dst string) {
+	dir := os.Getenv("VERIF_SCP_DIR")
+	if dir == "" {
+		return
+	}
+	data, err := os.ReadFile(src)
+	if err != nil {
+		return
+	}
+	tmp := path.Join(dir, ".tmp."+url.PathEscape(dst))
+	if os.WriteFile(tmp, data, 0644) == nil {
+		os.Rename(tmp, path.Join(dir, url.PathEscape(dst)))
+	}
+}
